@@ -246,8 +246,21 @@ def run_check(pid, tier, seed, workers, only, write_evidence, cap=None):
     viols = [(r['name'], v) for r in results for v in r['violations']]
     seen, confirmed, unconfirmed = set(), [], []
     reqs = [mod.native_request(v) for _, v in viols]
-    rd = native.run(reqs)
-    rr = native_r.run(reqs)
+    def run_tolerant(nat, rqs):
+        """answers of the oracle; a request on which the oracle process itself dies (abort, e.g. an allocation of 2^64 bytes after a
+        wrapped subtraction in the release profile) is answered {'panic': 'process aborted'} and the rest is asked again"""
+        try:
+            return nat.run(rqs)
+        except Exception:
+            out = []
+            for rq in rqs:
+                try:
+                    out.append(nat.run([rq])[0])
+                except Exception:
+                    out.append({'panic': 'the oracle process aborted on this request'})
+            return out
+    rd = run_tolerant(native, reqs)
+    rr = run_tolerant(native_r, reqs)
     for (qn, v), rq, a, b in zip(viols, reqs, rd, rr):
         key = json.dumps(rq, sort_keys=True)
         if key in seen:
